@@ -87,7 +87,7 @@ Theorem C13_handler_table :
              (negb (memS h guarded_handlers) || String.eqb fn "accept") &&
              (negb (String.eqb h "handleBlock") || String.eqb fn "RequestBlock")) handler_registrations = true /\
   map (fun r => snd (fst r)) (filter (fun r => String.eqb (fst (fst r)) "NewBitcoinNode") handler_registrations) =
-    ["CmdVersion"; "CmdVerAck"; "CmdHeaders"; "CmdProtoconf"; "CmdPing"; "CmdReject"; "CmdExtended"]%string /\
+    ["CmdExtended"; "CmdHeaders"; "CmdPing"; "CmdProtoconf"; "CmdReject"; "CmdVerAck"; "CmdVersion"]%string /\
   map (fun r => fst (fst r)) (filter (fun r => negb (memS (fst (fst r)) ["NewBitcoinNode"; "accept"; "RequestBlock"]%string)) handler_registrations) =
     ["SetBlockHandler"; "SetTxHandler"]%string.
 Proof. vm_compute. repeat split; reflexivity. Qed.
